@@ -53,7 +53,11 @@ def frame_bytes(code, tpci, own, n, variant=None):
         data.flags.priority, data.flags.repeat_on_error, data.flags.acknowledge_request = CEMIPriority.LOW, False, True
     elif variant == "hop0":
         data.flags.hop_count = 0
-    return CEMIFrame(code=cm, data=data).to_knx()
+    raw = CEMIFrame(code=cm, data=data).to_knx()
+    if variant in ("ai1", "ai2"):      # additional information in front of the service information (a timestamping interface, an RF coupler): same frame
+        info = bytes([0x04, 0x02, 0x12, 0x34]) if variant == "ai1" else bytes([0x06, 0x04, 1, 2, 3, 4, 0x02, 0x08, 0, 1, 2, 3, 4, 5, 6, 7])
+        raw = bytes([raw[0], len(info)]) + info + raw[2:]
+    return raw
 
 
 def run_hist(script, seed=0, eager=False):
@@ -108,7 +112,7 @@ def run_hist(script, seed=0, eager=False):
                 iface_ms, outcome, con_at = plan[i]
                 ev.append({"ev": "handed", "id": i, "t": now()})
                 for off in con_at:
-                    loop.call_later(off / 1000, loop.inject, rx, "con", "group", 0)
+                    loop.call_later(off / 1000, loop.inject, rx, "con", "group", 0, i, "ai1" if i % 2 == 0 else None)   # every second sender's confirmations carry additional information
                 if iface_ms:
                     await asyncio.sleep(iface_ms / 1000)
                 if outcome == "raise":
@@ -168,7 +172,7 @@ def plans(ck):
     # receive side: every frame kind, alone
     for code, tpci, own in itertools.product(("ind", "con", "req", "other", "unknown"), ("group", "taggroup", "broadcast", "p2p"), (0, 1)):
         out.append([(0, ("rx", code, tpci, own)), (10, ("rx", code, tpci, own)), (20, ("rx", "ind", "group", 0))])
-    for code, tpci, own, var in itertools.product(("ind", "con", "req"), ("group", "taggroup", "broadcast", "p2p"), (0, 1), ("neg", "low", "hop0", "dst0", "dstff")):
+    for code, tpci, own, var in itertools.product(("ind", "con", "req"), ("group", "taggroup", "broadcast", "p2p"), (0, 1), ("neg", "low", "hop0", "dst0", "dstff", "ai1", "ai2")):
         out.append([(0, ("rx", code, tpci, own, var)), (10, ("rx", code, tpci, own, var)), (20, ("rx", "ind", "group", 0))])
     # send side: one sender, confirmation before / at / after the interface call returns, twice, never; interface slow or raising
     cons = ([], [0], [1], [500], [2999], [3001], [0, 0], [100, 200], [4000])
@@ -192,7 +196,7 @@ def plans(ck):
                               rnd.choice([[], [0], [5], [400], [2990], [3100], [0, 1], [3500]]))))
             else:
                 s.append((t, ("rx", rnd.choice(["ind", "con", "con", "req", "other"]), rnd.choice(["group", "taggroup", "broadcast", "p2p"]), rnd.randrange(2),
-                              rnd.choice([None, None, "neg", "low", "hop0", "dst0", "dstff"]))))
+                              rnd.choice([None, None, "neg", "low", "hop0", "dst0", "dstff", "ai1", "ai2"]))))
         out.append(s)
     return out
 
